@@ -864,3 +864,19 @@ func (vc *VC) eltTerm(elem types.Type, E, s, j Term) Term {
 	}
 	return sx(fn, E, s, j)
 }
+
+// mapLen: the length of a map is a function of its key set in the given heap (so an update changes it), zero
+// for the nil map; a non-empty key set has a member (a witness function), an empty one has none.
+func (vc *VC) mapLen(h *Heap, m Term, mt *types.Map) Term {
+	d, _, ds, _ := vc.e.mapArrs(mt)
+	ks := vc.e.sortOf(mt.Key())
+	dom := Sel(vc.arrIn(h, d, ds), m)
+	fn := sym("maplen:" + ks)
+	wit := sym("mapwit:" + ks)
+	vc.declareFun(fn, []string{"(Array " + ks + " Bool)"}, "Int")
+	vc.declareFun(wit, []string{"(Array " + ks + " Bool)"}, ks)
+	t := sx(fn, dom)
+	vc.fact(And(Ge(t, "0"), Imp(Eq(m, "0"), Eq(t, "0")), Imp(Gt(t, "0"), Sel(dom, sx(wit, dom))),
+		fmt.Sprintf("(=> (= %s 0) (forall ((k %s)) (! (not (select %s k)) :pattern ((select %s k)))))", t, ks, dom, dom)))
+	return t
+}
